@@ -20,13 +20,15 @@ DefSyntax(kw, k) == [t |-> "defsyntax", kw |-> kw, k |-> k]
 MacroUse(kw, arg) == [t |-> "macrouse", kw |-> kw, arg |-> arg]
 ImportFile(lib) == [t |-> "importfile", lib |-> lib]
 \* what the library files of an instance's program directory export: library -> value of its one export
-Files(who) == IF who = 1 THEN ("conf" :> 100) @@ ("onlya" :> 1) ELSE ("conf" :> 200)
+Files(who) == IF who = 1 THEN ("conf" :> 100) @@ ("onlya" :> 1) @@ ("shared" :> 0) ELSE ("conf" :> 200) @@ ("shared" :> 0)
 ExportOf(lib) == IF lib = "conf" THEN "answer" ELSE "only-a"
 Alphabet(who) ==     \* the same names in both programs; what is defined differs by instance
   IF Family = "files"
   \* (the library files also define a macro m for their own use: syntax defined inside a library is not visible to
   \*  any importer, let alone to another instance - (m 5) is an unbound variable everywhere)
-  THEN {ImportFile("conf"), ImportFile("onlya"), Var("answer"), Define("answer", Num(IF who = 1 THEN 1 ELSE 2)), Var("only-a"), MacroUse("m", Num(5))}
+  \* (shared) is the SAME text in both directories and keeps a counter: each instance has its own counter all the same
+  THEN {ImportFile("conf"), ImportFile("onlya"), Var("answer"), Define("answer", Num(IF who = 1 THEN 1 ELSE 2)), Var("only-a"), MacroUse("m", Num(5)),
+        ImportFile("shared"), Call("next!", <<>>)}
   ELSE
   {Define("x", Num(IF who = 1 THEN 1 ELSE 2)),
    Set("x", Call("+", <<Var("x"), Num(10)>>)),
@@ -45,7 +47,11 @@ RunSteps(s, fuel) == IF s.status = "done" \/ fuel = 0 THEN s ELSE RunSteps(Step(
 \* files: the library files this evaluation sees (its own directory's, or - SharedFiles - whatever a cache says)
 RunForm(s, form, files) ==
   IF form.t = "importfile"
-  THEN IF form.lib \in DOMAIN files THEN RunSteps(Submit(s, Define(ExportOf(form.lib), Num(files[form.lib]))), 300)
+  THEN IF form.lib = "shared" /\ form.lib \in DOMAIN files
+       THEN \* the library's own state (not visible to the importer under that name in Ruschm; here a reserved name) and its procedure
+            LET s1 == RunSteps(Submit(s, Define("%shared-n", Num(0))), 300) IN
+            RunSteps(Submit(s1, Define("next!", Lam(<<>>, "", <<>>, <<Set("%shared-n", Call("+", <<Var("%shared-n"), Num(1)>>)), Var("%shared-n")>>))), 300)
+       ELSE IF form.lib \in DOMAIN files THEN RunSteps(Submit(s, Define(ExportOf(form.lib), Num(files[form.lib]))), 300)
        ELSE Fail([s EXCEPT !.out = <<>>], "NotFound")
   ELSE RunSteps(Submit(s, form), 300)
 RECURSIVE Alone(_, _, _, _, _)
